@@ -4,7 +4,7 @@
 (* denotational semantics Val(term, env).                                   *)
 (* A term is a record [k, a, s, n, d]: kind, children, string and two       *)
 (* integer payloads.                                                        *)
-EXTENDS Integers, Sequences, FiniteSets, Rat, ModP, ValCore, Func
+EXTENDS Integers, Sequences, FiniteSets, Rat, ModP, ValCore, Func, SetsAlg
 
 T(k, a, s, n, d) == [k |-> k, a |-> a, s |-> s, n |-> n, d |-> d]
 TInt(n) == T("Int", <<>>, "", n, 1)
@@ -56,6 +56,10 @@ EqVal(a, b) == LET c == Cmp3(a, b)
 AndVals(vs) == IF \E i \in 1..Len(vs) : vs[i].t = "bool" /\ ~vs[i].b THEN VBool(FALSE)
                ELSE IF \A i \in 1..Len(vs) : vs[i].t = "bool" THEN VBool(TRUE)
                ELSE VUndef
+
+\* exclusive or of a sequence of truth values: odd number of true ones
+XorVals(vs) == IF \E i \in 1..Len(vs) : vs[i].t # "bool" THEN VUndef
+               ELSE VBool(Cardinality({i \in 1..Len(vs) : vs[i].b}) % 2 = 1)
 
 RECURSIVE Val(_, _), SumVals(_, _, _), ProdVals(_, _, _), ValSeq(_, _), PwVal(_, _, _)
 \* Piecewise: value of the first branch whose condition holds
@@ -131,6 +135,16 @@ Val(t, env) ==
       [] k \in {"not", "Not"} -> NotVal(A(1))
       [] k \in {"and", "And"} -> AndVals(ValSeq(t.a, env))
       [] k \in {"or", "Or"} -> NotVal(AndVals([i \in 1..Len(t.a) |-> NotVal(Val(t.a[i], env))]))
+      [] k \in {"nand"} -> NotVal(AndVals(ValSeq(t.a, env)))
+      [] k \in {"nor"} -> AndVals([i \in 1..Len(t.a) |-> NotVal(Val(t.a[i], env))])
+      [] k \in {"xor", "Xor"} -> XorVals(ValSeq(t.a, env))
+      [] k = "xnor" -> NotVal(XorVals(ValSeq(t.a, env)))
+      \* membership of a real rational value in a set term (module SetsAlg)
+      [] k \in {"contains", "Contains"} ->
+           LET v == A(1)
+           IN IF ~(IsNum(v) /\ ExactRat(v)) THEN VUndef
+              ELSE LET m == Mem(t.a[2], Probe(v.re, IF v.re[2] = 1 THEN "int" ELSE "rat"))
+                   IN IF m = "T" THEN VBool(TRUE) ELSE IF m = "F" THEN VBool(FALSE) ELSE VUndef
       \* first branch whose condition is true; recipe <<e1, c1, e2, c2, ...>>, dump <<Pair(e1, c1), ...>>
       [] k = "piecewise" -> PwVal([i \in 1..(Len(t.a) \div 2) |-> <<t.a[2 * i - 1], t.a[2 * i]>>], env, 1)
       [] k = "Piecewise" -> PwVal([i \in 1..Len(t.a) |-> <<t.a[i].a[1], t.a[i].a[2]>>], env, 1)
